@@ -13,6 +13,8 @@ if ! git merge -q --no-edit FETCH_HEAD 2>/tmp/merge_err.txt; then
       python3 - <<'PY'
 import json
 a=json.load(open('/tmp/kf_ours.json')); b=json.load(open('/tmp/kf_theirs.json'))
+bm={x['id']:x for x in b}
+a=[(bm[x['id']] if x['id'] in bm and bm[x['id']].get('status')=='fixed' else x) for x in a]
 ids={x['id'] for x in a}
 a+= [x for x in b if x['id'] not in ids]
 json.dump(a,open('/verif/known_findings.json','w'),indent=1)
